@@ -5,9 +5,10 @@ import TensorModel.Ext.History
 import TensorModel.Ext.Linalg
 import TensorModel.Ext.Serial
 import TensorModel.Ext.Reduce
+import TensorModel.Ext.Mask
 /-! Registry of operation families (one import + one list entry per family). -/
 namespace TM
 
-def families : List Family := [minMaxFamily, enginesFamily, historyFamily, linalgFamily, serialFamily, reduceFamily]
+def families : List Family := [minMaxFamily, enginesFamily, historyFamily, linalgFamily, serialFamily, reduceFamily, maskFamily]
 
 end TM
